@@ -204,7 +204,7 @@ def drive(vdrive, scheds, work, shards=8):
                                            stdout=subprocess.PIPE, stderr=subprocess.PIPE, text=True), fin, fout))
         for p, fin, fout in procs:
             try:
-                _, err = p.communicate(timeout=3000)
+                _, err = p.communicate(timeout=int(os.environ.get("VERIF_DRIVE_TIMEOUT", "1500")))
             except subprocess.TimeoutExpired:
                 p.kill()
                 raise Machinery("driver timed out")
